@@ -1,14 +1,17 @@
 #!/bin/bash
-# mutate.sh <patch.diff> <ID> [tier]: apply a deliberate property-breaking change to /repo,
-# run the check, always revert.  Prints DETECTED / MISSED.
+# mutate.sh <patch.diff> <ID> [tier]: apply a deliberate property-breaking change to a scratch
+# worktree of /repo (never to /repo itself), run the check against it, remove the worktree.
+# Prints DETECTED / MISSED.  Safe to run concurrently.
 set -u
 cd "$(dirname "$0")"
 P=$(realpath "$1"); ID=$2; TIER=${3:-quick}
-if ! git -C /repo diff --quiet; then echo "repo dirty, refusing"; exit 2; fi
-git -C /repo apply "$P" || { echo "patch does not apply"; exit 2; }
-./run.sh "$ID" "$TIER" > build/mutate.$$.log 2>&1
+W=/tmp/verif-mut-$$-$RANDOM
+git -C /repo worktree add -q --detach $W HEAD || exit 2
+trap 'git -C /repo worktree remove --force $W >/dev/null 2>&1; rm -rf /verif/build/alt/$(echo $W | tr -c "A-Za-z0-9" "_")' EXIT
+git -C $W apply "$P" || { echo "patch does not apply"; exit 2; }
+L=build/mutate.$$.log
+VERIF_REPO=$W ./run.sh "$ID" "$TIER" > $L 2>&1
 rc=$?
-git -C /repo checkout -- . 
-tail -4 build/mutate.$$.log | sed 's/^/    /'
-if [ $rc -eq 1 ] && grep -q "^VIOLATION property=$ID" build/mutate.$$.log; then echo "DETECTED $(basename $P) by $ID ($TIER)"; else echo "MISSED $(basename $P) by $ID ($TIER) rc=$rc"; fi
-rm -f build/mutate.$$.log
+grep -v "^\[.*counts:" $L | tail -${MUTATE_TAIL:-4} | cut -c1-400 | sed 's/^/    /'
+if [ $rc -eq 1 ] && grep -q "^VIOLATION property=$ID" $L; then echo "DETECTED $(basename $P) by $ID ($TIER)"; else echo "MISSED $(basename $P) by $ID ($TIER) rc=$rc"; fi
+rm -f $L
